@@ -75,7 +75,7 @@ def exprsOf : CStmt → List CExpr
   | .chain _ lhs2 op2 e => if op2 == "=" then [e] else [lhs2, e]
   | .jump e => [e]
   | .skip _ => []
-  | .exprstmt _ => []
+  | .exprstmt e => [e]
   | .ret _ => []
   | .vcall _ _ _ _ => []
 def exprsOfList : List CStmt → List CExpr
@@ -146,7 +146,7 @@ def WFStmt (c : Ctx) : CStmt → Bool
   | .for_ v _ _ b => (match lookupS v c.types with | some t => t.width == 32 | none => false) && WFStmts c b
   | .jump e => !(readVars e).contains "jump_flag"
   | .skip _ => true
-  | .exprstmt _ => false
+  | .exprstmt _ => true     -- a bare pure value: nothing is written (its expression is in `exprsOf`)
   | .ret _ => false
   | .vcall _ _ _ _ => false
 def WFStmts (c : Ctx) : List CStmt → Bool
@@ -218,7 +218,7 @@ def CarveS (CarveE : CExpr → Bool) (env : CEnv) : CStmt → Bool
         | .ok ce => ce.ty.width == 32 || castOK { signed := false, width := 32, group := 1 } ce
         | .error _ => true)
   | .skip _ => true
-  | .exprstmt _ => true
+  | .exprstmt e => CarveE e
   | .ret _ => true
   | .vcall _ _ _ _ => true
 def CarveSs (CarveE : CExpr → Bool) (env : CEnv) : List CStmt → Bool
